@@ -76,13 +76,27 @@ RECURSION += [
     ("replace-fn+eval", "function r(){ return 'a'.replace(/a/, function(){ return eval('r()'); }); } r();"),
     ("JSON-getter+eval", "var o = { get p(){ return eval('JSON.stringify(o)'); } }; JSON.stringify(o);"),
 ]
+# plain script-to-script recursion (which never touches native code again) STARTED from inside script code that native code
+# invoked: the accounting has to go on in whichever interpreter loop runs the callee
+_PLAIN = {"self": "function r(n){ return r(n + 1); }", "operands": "function r(n){ return 1 + r(n + 1); }", "mutual": "function r(n){ return r2(n + 1); } function r2(n){ return r(n + 1); }",
+          "method": "var ro = {m: function(n){ return this.m(n + 1); }}; function r(n){ return ro.m(n); }", "ctor": "function RK(n){ this.k = new RK(n + 1); } function r(n){ return new RK(n); }"}
+_ENTRIES = {"forEach": "[1].forEach(function(){ r(0); });", "map": "[1].map(function(){ return r(0); });", "sort": "[2, 1].sort(function(){ r(0); return 0; });", "reduce": "[1, 2].reduce(function(){ return r(0); }, 0);",
+            "getter": "({get g(){ return r(0); }}).g;", "setter": "({set s(v){ r(0); }}).s = 1;", "valueOf": "({valueOf: function(){ return r(0); }}) + 1;", "toString": "String({toString: function(){ return r(0); }});",
+            "call": "(function(){ return r(0); }).call(null);", "apply": "r.apply(null, [0]);", "bind": "r.bind(null, 0)();", "replace-fn": "'a'.replace('a', function(){ return r(0); });",
+            "replace-regexp-fn": "'a'.replace(/a/, function(){ return r(0); });", "JSON-getter": "JSON.stringify({get g(){ return r(0); }});", "assign-getter": "Object.assign({}, {get g(){ return r(0); }});",
+            "eval": "eval('r(0)');", "indirect-eval": "(0, eval)('r(0)');", "Function": "new Function('return r(0)')();", "two-natives": "[1].map(function(){ return [2].filter(function(){ return r(0); }); });",
+            "callback-in-getter": "({get g(){ return [1].map(function(){ return r(0); }); }}).g;", "new-in-callback": "[1].forEach(function(){ new (function(){ r(0); })(); });", "find": "[1].find(function(){ return r(0); });",
+            "every": "[1].every(function(){ return r(0); });", "Array.from": "typeof Array.from === 'function' ? Array.from([1], function(){ return r(0); }) : r(0);"}
+for _pn, _p in _PLAIN.items():
+    for _en, _e in _ENTRIES.items():
+        RECURSION.append(("entered-from:%s/%s" % (_en, _pn), _p + " " + _e))
 MS = [20000, 100000, 1000000, 10000000]
 
 
 def bounded_bodies(ctx):
     """(id, source-of-one-iteration, prelude)."""
     out = []
-    ctxs = ["stmt", "left+", "arg1", "array"] if ctx.quick else list(skel.CONTEXTS)
+    ctxs = ["stmt", "left+", "arg1", "array", "forin-array"] if ctx.quick else list(skel.CONTEXTS)
     for ident, _ in skel.enumerate_skeletons(depth2=True, contexts=["stmt"]):
         outer, inner, ex, _c = ident
         for cn in ctxs:
@@ -104,46 +118,22 @@ def bounded_bodies(ctx):
             out.append({"id": h(["inline", inner, ex]), "ident": ["inline", inner, ex], "pre": skel.PRELUDE + skel.CTX_PRELUDE,
                         "iter": "try { " + b + " } catch (E) { }"})
     # an abrupt completion pending in try/catch (return value, exception, break, continue) overridden by a jump out of the finally
-    # block - the construct must give up whatever the pending completion kept on the operand stack.  (The bodies sit directly in
-    # the monitored loop: 'continue' targets it; 'return' needs the in-function variant and is overridden, so the loop goes on.)
-    pendings = {"return-value": "return [I, I];", "return-call": "return keep(I) + keep(1);", "throw": "throw I;", "throw-expr": "keep(1) + nope.x;", "normal": "keep(I);",
-                "catch-rethrows": None, "catch-returns": None, "break-inner": None, "nested-finally": None}
-    exits = {"continue": "continue;", "labelled-continue": "continue;", "cond-continue": "if (I >= 0) continue;"}
-    for pn, psrc in pendings.items():
-        for en, esrc in exits.items():
-            if pn == "catch-rethrows":
-                body = "try { throw I; } catch (e) { throw [e, e]; } finally { %s }" % esrc
-            elif pn == "catch-returns":
-                body = "try { throw I; } catch (e) { return [e, e]; } finally { %s }" % esrc
-            elif pn == "break-inner":
-                body = "do { try { break; } finally { %s } } while (0);" % ("continue;" if en != "cond-continue" else "if (I < 0) continue;")
-            elif pn == "nested-finally":
-                body = "try { try { return [I]; } finally { keep(2); } } finally { %s }" % esrc
-            else:
-                body = "try { %s } finally { %s }" % (psrc, esrc)
-            needs_fn = "return" in body
-            out.append({"id": h(["finally-override", pn, en]), "ident": ["finally-override", pn, en], "pre": skel.PRELUDE + skel.CTX_PRELUDE,
-                        "iter": body, "needs_function": needs_fn})
-    # ... the same when the abandoned jump was leaving constructs that keep operand slots of their own (for-in / for-of iterators,
-    # switch discriminants, a catch block's exception, inner finally blocks) between its origin and the try statement
-    crossed = {"for-in": "for (var k in {a: 1, b: 2}) { %s }", "for-of": "for (var v of [1, 2]) { %s }", "switch": "switch (I % 2) { case 0: %s default: %s }",
-               "for-in>for-of": "for (var k in {a: 1}) { for (var v of [1]) { %s } }", "switch>for-in": "switch (1) { case 1: for (var k in {a: 1}) { %s } }",
-               "for-of>try-finally": "for (var v of [1]) { try { %s } finally { keep(v); } }", "for-in>catch": "for (var k in {a: 1}) { try { throw k; } catch (e) { %s } }",
-               "while>for-in": "var w = 0; while (w++ < 2) { for (var k in {a: 1}) { %s } }", "labelled-for-of": "L1: for (var v of [1]) { for (;;) { %s } }"}
-    jumps = {"return-value": "return [I];", "return-void": "return;", "return-call": "return keep(I) + keep(1);", "throw": "throw I;"}
-    outs = {"continue": "continue;", "cond-continue": "if (I >= 0) continue;", "break-do": None, "labelled-break": None}
-    for cn, cs in crossed.items():
-        for jn, js in jumps.items():
-            for on, os_ in outs.items():
-                inner = cs.replace("%s", js)
-                if on == "break-do":
-                    body = "do { try { %s } finally { break; } } while (0);" % inner
-                elif on == "labelled-break":
-                    body = "OUT: { try { %s } finally { break OUT; } }" % inner
-                else:
-                    body = "try { %s } finally { %s }" % (inner, os_)
-                out.append({"id": h(["finally-override-crossing", cn, jn, on]), "ident": ["finally-override-crossing", cn, jn + "/" + on], "pre": skel.PRELUDE + skel.CTX_PRELUDE,
-                            "iter": body, "needs_function": "return" in body})
+    # block - the construct must give up whatever the pending completion kept on the operand stack, also when the abandoned jump
+    # was leaving constructs that keep operand slots of their own (skel.override_bodies; the bodies sit directly in the monitored
+    # loop: 'continue' targets it; 'return' needs the in-function variant and is overridden, so the loop goes on)
+    for kind, a, b, c, body in skel.override_bodies():
+        ident_hash = [kind, a, b] if kind == "finally-override" else [kind, a, b, c]
+        ident = [kind, a, b] if kind == "finally-override" else [kind, a, b + "/" + c]
+        out.append({"id": h(ident_hash), "ident": ident, "pre": skel.PRELUDE + skel.CTX_PRELUDE, "iter": body, "needs_function": "return" in body})
+    # ... and the same bodies inside a function whose call is an operand of the caller (the abandoned jump must not touch the caller's operands)
+    for kind, a, b, c, body in skel.override_bodies():
+        g = "function g() { for (var I = 0; I < 2; I++) { " + body + " } return 'N'; }\n"
+        for cn in ("stmt", "arg1", "array", "forin-array", "switch-arg", "forof-sum"):
+            if ctx.quick and cn not in ("array", "forin-array") and hash_small([kind, a, b, c, cn]) % 3:
+                continue
+            call = skel.CONTEXTS[cn].replace("log('r', ", "keep(")
+            out.append({"id": h(["override-in-g", kind, a, b, c, cn]), "ident": [kind + "-in-callee", a, b + ("/" + c if c else ""), cn], "pre": skel.PRELUDE + skel.CTX_PRELUDE + g,
+                        "iter": "try { " + call + " } catch (E) { }"})
     # expression statements: every expression form, as a statement, as a discarded operand and as a condition.  (Forms this engine
     # does not parse are skipped: the case is judged only when the program compiles.)
     for en, e in EXPR_ZOO:
